@@ -393,12 +393,31 @@ def volumes_exact_3d(ctx, repo, pid):
         o = ObjV(cls=ci)
         o.attrs["centers"] = T.mat(interp, "C", N, Poly.const(dim))
         o.attrs["spherical_voronoi"] = ObjV(ext="scipy.spatial.SphericalVoronoi", origin=Term("SphericalVoronoi"))
+        # attributes the constructor initialises with an empty container / None (memo slots) start out like that
+        ctor_ = ci.find_method("__init__")
+        for n_ in (ast.walk(ctor_.node) if ctor_ is not None else []):
+            if isinstance(n_, ast.Assign) and len(n_.targets) == 1 and isinstance(n_.targets[0], ast.Attribute) and \
+                    isinstance(n_.targets[0].value, ast.Name) and n_.targets[0].value.id == "self" and n_.targets[0].attr not in o.attrs:
+                v_ = n_.value
+                if isinstance(v_, ast.Dict) and not v_.keys or (isinstance(v_, ast.Call) and isinstance(v_.func, ast.Name) and v_.func.id == "dict"
+                                                                 and not v_.args and not v_.keywords):
+                    o.attrs[n_.targets[0].attr] = DictV({})
+                elif isinstance(v_, ast.Constant) and v_.value is None:
+                    o.attrs[n_.targets[0].attr] = Const(None)
         res = interp.call_function(fi, [], {}, self_obj=o)
         out[dim] = res
     r3 = out[3]
-    ok3 = isinstance(r3, Term) and "calculate_areas" in vstr(r3) and "hull_estimate" not in vstr(r3)
-    ctx.check(ok3, "DISPATCH", f"{pid}.areas.exact", "for direction grids (3D) the default cell areas come from "
-              "SphericalVoronoi.calculate_areas (exact areas of the spherical polygons)", fi.where, witness=vstr(r3)[:200])
+    r3o = r3.origin if isinstance(r3, ObjV) and isinstance(r3.origin, Term) else r3
+    ok3 = isinstance(r3o, Term) and "calculate_areas" in vstr(r3o) and "hull_estimate" not in vstr(r3o)
+    if ok3:
+        ctx.ok("DISPATCH", f"{pid}.areas.exact", "for direction grids (3D) the default cell areas come from "
+               "SphericalVoronoi.calculate_areas (exact areas of the spherical polygons)", fi.where)
+    elif contains_top(r3) or contains_top(r3o):
+        ctx.inconclusive("DISPATCH", f"{pid}.areas.exact", "value returned for direction grids (3D) by default not derived", fi.where,
+                         witness=contains_top(r3) or contains_top(r3o))
+    else:
+        ctx.violate("DISPATCH", f"{pid}.areas.exact", "for direction grids (3D) the default cell areas do not come from "
+                    "SphericalVoronoi.calculate_areas (exact areas of the spherical polygons)", fi.where, witness=vstr(r3o)[:200])
     r4 = out[4]
     if isinstance(r4, Term) and r4.op == "hull_estimate":
         ctx.ok("DISPATCH", f"{pid}.areas.4d", "for rotation grids (4D) the convex-hull estimate is used, unmodified", fi.where)
